@@ -200,6 +200,12 @@ func Packet(q Query, rcode int, ans []AnsRec) ([]byte, error) {
 				return nil, e
 			}
 			err = b.CNAMEResource(hdr, dnsmessage.CNAMEResource{CNAME: cn})
+		case 64:
+			tn, e := xname(a.Rec.HTTPS.Target)
+			if e != nil {
+				return nil, e
+			}
+			err = b.SVCBResource(hdr, dnsmessage.SVCBResource{Priority: a.Rec.HTTPS.Priority, Target: tn, Params: HTTPSParams(a.Rec.HTTPS)})
 		case 65:
 			tn, e := xname(a.Rec.HTTPS.Target)
 			if e != nil {
